@@ -129,7 +129,16 @@ void vf_case(vf::Ctx& c) {
     int level = (int)t.irange(1, 7);
     size_t maxsz = maxFrame <= 2 ? 1500 : (maxFrame < 200 ? 20000 : (g_thorough ? (2u << 20) : (500u << 10)));
     gen::ContentInfo ci;
-    std::vector<uint8_t> x = gen::gen_content(t, maxsz, &ci);
+    std::vector<uint8_t> x;
+    if (t.chance(4)) {
+        // archives whose seek table is larger than the reader's 128 KiB parsing buffer: frame counts around the points where a
+        // table entry (8 bytes, 12 with checksums) straddles a buffer refill
+        maxFrame = (unsigned)t.range(1, 3);
+        size_t nfr = t.flip() ? (size_t)t.pick<size_t>({10921, 10922, 10923, 16383, 16384, 16385, 21844, 21845, 21846, 32767, 32768, 32769}) : (size_t)t.range(10000, 45000);
+        x = gen::gen_content_sized(t, nfr * maxFrame - (size_t)t.range(0, maxFrame - 1), &ci);
+        level = 1;
+        c.label("archives_with_seek_table_beyond_one_buffer");
+    } else x = gen::gen_content(t, maxsz, &ci);
     Archive a = make_archive(c, x, maxFrame, checksum, level);
     c.note("maxFrameSize=%u checksum=%d level=%d %s archive=%zuB explicitEnds=%u; ", maxFrame, checksum, level, ci.summary().c_str(), a.bytes.size(), a.explicitEnds);
     if (a.emptyFrames) c.label("archives_with_empty_middle_frame");
